@@ -2,7 +2,7 @@ import TaskModel.Finger.Machine
 /-! Helper lemmas about the state machine (used by `Props.C04`, `Props.C05`, `Props.C12`). -/
 namespace TaskModel.Finger
 
-variable (cfg : Cfg) (H : Bytes → Bytes) (pr : Proj)
+variable (cfg : Cfg) (H : Hashes) (pr : Proj)
 
 /-! ### the timestamp check -/
 
